@@ -301,7 +301,7 @@ func runMatrixCase(c *ctx, idx int, m mcase) {
 			c.observeTolerant(strings.TrimSuffix(b, " -> ok"))
 		}
 	}
-	if m.field == "exp" && m.where == "" && (m.form == `"2023-11-14T23:13:20+01:00"` || m.form == `1.5`) {
+	if (m.spec.name == "IDTokenClaims" || m.spec.name == "IntrospectionResponse") && m.field == "exp" && m.where == "" && (m.form == `"2023-11-14T23:13:20+01:00"` || m.form == `1.5`) {
 		c.run.SampleKind("matrix:"+m.spec.name+":"+m.form, map[string]any{"type": m.spec.name, "document": trunc(m.doc, 300), "outcome_buckets": res.buckets, "error": wit["error"]})
 	}
 	if m.field == "ui_locales" && m.form == `"en-us de_CH"` {
@@ -583,7 +583,7 @@ func runGeneratedDoc(c *ctx, i int) {
 			c.observeTolerant(strings.TrimSuffix(b, " -> ok"))
 		}
 	}
-	if i < 40 && twist != "duplicate-key" && len(doc) < 400 {
+	if i < 40 && twist == "plain" && len(doc) < 400 {
 		c.run.SampleKind("generated-document:"+twist+":"+fmt.Sprint(res.errored), map[string]any{"type": s.name, "document": trunc(doc, 400), "outcome_buckets": res.buckets, "error": wit["error"]})
 	}
 }
